@@ -206,9 +206,10 @@ theorem codeOK_bytes {c0 : COpts} (v : GoVal) (hc : Conf c0 .bytes v = true) : C
 
 
 
-theorem codeOK_ptr_nil (t : GoType) : CodeOKn o co (.ptr t) .nil := by
+theorem codeOK_ptr_nil (t : GoType) (hcb : ∀ pc, cbPtrCode t pc = none) : CodeOKn o co (.ptr t) .nil := by
   intro k tab _hk hnh addr fpv P pc sp pv r s b hat hg _hs
   rw [code, if_neg (by simp [hnh])] at hat ⊢
+  simp only [hcb] at hat ⊢
   simp only [List.cons_append, List.nil_append] at hat ⊢
   constructor
   · intro j hj res h
@@ -221,9 +222,10 @@ theorem codeOK_ptr_nil (t : GoType) : CodeOKn o co (.ptr t) .nil := by
     exact halts_cast h (by simp; omega) rfl rfl rfl
   · intro e he; simp only [encV] at he; cases he
 
-theorem codeOK_ptr (t : GoType) (w : GoVal) (ih : CodeOK o co t w) : CodeOKn o co (.ptr t) (.ptr w) := by
+theorem codeOK_ptr (t : GoType) (hcb : ∀ pc, cbPtrCode t pc = none) (w : GoVal) (ih : CodeOK o co t w) : CodeOKn o co (.ptr t) (.ptr w) := by
   intro k tab hk hnh addr fpv P pc sp pv r s b hat hg hs
   rw [code, if_neg (by simp [hnh])] at hat ⊢
+  simp only [hcb] at hat ⊢
   simp only [List.cons_append, List.nil_append] at hat ⊢
   simp only [needV] at hs
   have hsave : step o (.save false) (pc + 1) r s b = .next (pc + 1 + 1) r (r :: s) b := by
